@@ -232,6 +232,28 @@ pub fn prop_c15(bytes: &[u8]) -> String {
             }
         }
     }
+    // ... and ONLY that one: every other object keeps the new-combo flag its line gave it (seed C15-r: the forced combo carried past a
+    // hold note to the next object)
+    {
+        let nc = |h: &HitObject| match &h.kind {
+            HitObjectKind::Circle(c) => Some(c.new_combo),
+            HitObjectKind::Slider(s) => Some(s.new_combo),
+            HitObjectKind::Spinner(s) => Some(s.new_combo),
+            HitObjectKind::Hold(_) => None,
+        };
+        for (i, h) in map.hit_objects.iter().enumerate() {
+            let p = &pre[idx[i]];
+            if nc(h) == nc(p) {
+                continue;
+            }
+            let first_after_a_break = map.breaks.iter().any(|b| {
+                h.start_time > b.end_time && !map.hit_objects[..i].iter().any(|g| g.start_time > b.end_time)
+            });
+            if !(nc(p) == Some(false) && nc(h) == Some(true) && first_after_a_break) {
+                return format!("FAIL object {i} (t={}): new-combo flag {:?} on its line, {:?} in the map, and it is not the first object after a break", h.start_time, nc(p), nc(h));
+            }
+        }
+    }
     // 3.-5. velocity, duration, sample defaults
     let cp = map.control_points.clone();
     let mode = map.mode;
